@@ -365,3 +365,31 @@ theorem parseXOnly_spec (b : List UInt8) (q : Point) (h : parseXOnly b = some q)
       simp [this]
 
 end BV.C11.Parsers
+
+namespace BV.C11.Parsers
+open BV.Secp256k1 BV.C11
+
+theorem sq_mod_neg (m y : Nat) (hy : y ≤ m) : (m - y) * (m - y) % m = y * y % m := by
+  have key : ∀ a b : Nat, a + b = m → b ≤ a → a * a % m = b * b % m := by
+    intro a b hab hba
+    have h1 : b * b ≤ a * a := Nat.mul_self_le_mul_self hba
+    have h2 : a * a - b * b = (a + b) * (a - b) := Nat.mul_self_sub_mul_self_eq a b
+    have h3 : a * a = b * b + m * (a - b) := by rw [← hab, ← h2]; omega
+    rw [h3, Nat.add_mul_mod_self_left]
+  rcases Nat.le_total y (m - y) with h | h
+  · exact key (m - y) y (by omega) h
+  · exact (key y (m - y) (by omega) h).symm
+
+/-- every accepted compressed / x-only key satisfies the curve equation y² = x³ + 7 (mod p) with x < p. -/
+theorem decompress_on_curve (x : Nat) (odd : Bool) (q : Point) (h : decompress x odd = some q) :
+    ∃ y, q = .aff x y ∧ x < p ∧ y * y % p = (x * x % p * x + curveB) % p := by
+  obtain ⟨hx, y0, hy, hq⟩ := decompress_spec x odd q h
+  have hlt := fsqrt_lt _ _ hy
+  have hsq := fsqrt_sq _ _ hy
+  rw [Nat.mod_mod] at hsq
+  refine ⟨_, hq, hx, ?_⟩
+  split
+  · exact hsq
+  · rw [sq_mod_neg p y0 (Nat.le_of_lt hlt)]; exact hsq
+
+end BV.C11.Parsers
